@@ -4,6 +4,7 @@ CONSTANTS N = 2
           FailAt = 0
           Buffered = FALSE
           RestartsOnLateRequest = FALSE
+          Replenish = FALSE
           Grants = {1, 2, 99}
           Big = 99
           MaxCalls = 3
